@@ -414,7 +414,7 @@ func cfgFor(prop string) propCfg {
 	case "C01":
 		return propCfg{profiles: []string{"deps"}, progs: pick(260, 5000), scheds: 5, dfsLimit: pick(60, 300), dfsEvents: 9, pauses: true}
 	case "C02":
-		return propCfg{profiles: []string{"seq"}, progs: pick(260, 4000), scheds: 5, dfsLimit: pick(40, 200), dfsEvents: 9, pauses: true}
+		return propCfg{profiles: []string{"seq"}, progs: pick(260, 3000), scheds: 5, dfsLimit: pick(40, 200), dfsEvents: 9, pauses: true}
 	case "C03":
 		return propCfg{profiles: []string{"fail"}, progs: pick(260, 4000), scheds: 5, dfsLimit: pick(40, 200), dfsEvents: 9, pauses: true}
 	case "C06":
